@@ -983,14 +983,26 @@ fn is_heap_container(ty: &Ty) -> bool {
 }
 
 /// `depth_hi`: longest chain of nested heap containers present in the value (empty ones count).
-/// `depth_lo`: (longest chain of nested *non-empty* containers) - 1, clamped at 0; i.e. the
-/// number of levels through which decoding must recurse into a further container.
+/// `depth_lo`: longest chain of nested *non-empty* containers whose contents are decoded element by
+/// element, i.e. the number of container levels through which element decoders are entered.
+/// Containers that are decoded as one block of plain numbers - strings, bit sequences, byte buffers
+/// and vectors / deques / heaps of primitive integers or floats - are leaves: they count for
+/// `depth_hi` only.
 pub fn depths(ty: &Ty, v: &Val) -> (u32, u32) {
-	let (hi, ne) = depth_rec(ty, v);
-	(hi, ne.saturating_sub(1))
+	depth_rec(ty, v)
 }
 
-/// returns (chain incl. empty containers, chain of non-empty containers)
+/// a container decoded as one block of plain numbers
+fn is_blob(ty: &Ty) -> bool {
+	match ty {
+		Ty::Str | Ty::Bits { .. } => true,
+		Ty::Seq { elem, kind, .. } =>
+			matches!(kind, SeqKind::Vec | SeqKind::Deque | SeqKind::Heap | SeqKind::Bytes | SeqKind::CowSlice) && matches!(**elem, Ty::Int { .. } | Ty::F32 | Ty::F64),
+		_ => false,
+	}
+}
+
+/// returns (chain incl. empty containers, chain of non-empty containers entered element by element)
 fn depth_rec(ty: &Ty, v: &Val) -> (u32, u32) {
 	let own = is_heap_container(ty) as u32;
 	let mut hi = 0;
@@ -1046,14 +1058,10 @@ fn depth_rec(ty: &Ty, v: &Val) -> (u32, u32) {
 		_ => {},
 	}
 	let hi = hi + own;
-	let ne = if own == 1 {
-		if nonempty {
-			ne + 1
-		} else {
-			// an empty container: it is "a container" but nothing is decoded inside it
-			1
-		}
+	let ne = if own == 1 && nonempty && !is_blob(ty) {
+		ne + 1
 	} else {
+		// not a container, an empty one (nothing is decoded inside it) or a block of plain numbers
 		ne
 	};
 	(hi, ne)
